@@ -74,8 +74,8 @@ Record result := {
   err : errtok             (* error message *)
 }.
 
-Definition start (p : policy) (rdt0 : Q) : result :=
-  {| ret := 1; trace := [EPolicy p]; rdt := rdt0; st_written := false; se_written := false; de_written := false;
+Definition start (rdt0 : Q) : result :=
+  {| ret := 1; trace := []; rdt := rdt0; st_written := false; se_written := false; de_written := false;
      kst := KUntouched; sos := SUntouched; err := ErrNone |}.
 Definition log (e : event) (r : result) : result :=
   {| ret := ret r; trace := e :: trace r; rdt := rdt r; st_written := st_written r; se_written := se_written r;
@@ -191,14 +191,15 @@ Definition finish_early (tr : traits) (s : script) (bs : bool) (Ke : Q) (smt : s
   | _ => caught s HTExport r
   end.
 
-Definition integrate (v : variant) (tr : traits) (f : smflag) (K0 : Q) (p : policy) (rdt0 : Q) (s : script) : result :=
-  let r := log EInit (start p rdt0) in
+(* [strict]: the policy given to the behaviour is Strict (the only thing checkBounds makes of it that matters here) *)
+Definition integrate_body (v : variant) (tr : traits) (f : smflag) (K0 : Q) (strict : bool) (rdt0 : Q) (s : script) : result :=
+  let r := log EInit (start rdt0) in
   match sc_init s with
   | Fail => failure ErrInitFailed r
   | Throw => caught s HInit r
   | Ok =>
     let r := log EBounds r in
-    if sc_oob s && (match p with PStrict => true | _ => false end) then caught s HBounds r
+    if sc_oob s && strict then caught s HBounds r
     else
       let bs := speed_of_sound_requested K0 in
       let Ke := effective_K0 K0 in
@@ -253,6 +254,14 @@ Definition integrate (v : variant) (tr : traits) (f : smflag) (K0 : Q) (p : poli
           end
   end.
 
+(* the behaviour is built and told the policy (setOutOfBoundsPolicy) before anything else *)
+Definition is_strict (p : policy) : bool := match p with PStrict => true | _ => false end.
+Definition tell_policy (p : policy) (r : result) : result :=
+  {| ret := ret r; trace := trace r ++ [EPolicy p]; rdt := rdt r; st_written := st_written r; se_written := se_written r;
+     de_written := de_written r; kst := kst r; sos := sos r; err := err r |}.
+Definition integrate (v : variant) (tr : traits) (f : smflag) (K0 : Q) (p : policy) (rdt0 : Q) (s : script) : result :=
+  tell_policy p (integrate_body v tr f K0 (is_strict p) rdt0 s).
+
 (* ------------------------------------------------------------------ finite strain wrappers *)
 Inductive wrapper := WGreenLagrange | WHencky | WFiniteStrain.
 Inductive smeasure := Cauchy | PK2 | PK1 | SMInvalid.
@@ -290,7 +299,7 @@ Record wresult := {
 }.
 
 Definition wrapper_error (p : policy) (rdt0 : Q) (e : errtok) : wresult :=
-  {| w_ret := -1; w_called := false; w_inner := start p rdt0; w_K0_seen := 0; w_sm := SMInvalid; w_flux_private := false;
+  {| w_ret := -1; w_called := false; w_inner := start rdt0; w_K0_seen := 0; w_sm := SMInvalid; w_flux_private := false;
      w_flux := FluxUntouched; w_K := WKUntouched; w_err := e |}.
 
 Definition post_process (v : variant) (r : Z) : bool :=
